@@ -264,7 +264,10 @@ def run(ctx):
         # where it is written
 
         def builds_msgs(e):
-            return "SubMsg" in e.target.locals[0]["ty"] and e.target.locals[0]["ty"].count("Vec<") >= 1
+            rt = e.target.locals[0]["ty"]
+            # the helper that assembles the message list - and, when the list is built by an iterator adaptor, the
+            # closure that decides per registry entry (its decisions are the loop body's)
+            return "SubMsg" in rt and (rt.count("Vec<") >= 1 or e.target.kind == "Closure")
         shut_paths = splice(ix, a.ok_paths(), builds_msgs)
         for q in shut_paths:
             for s in model.path_submsgs(ix, q):
